@@ -61,13 +61,13 @@ type World struct {
 	Chain   []*chainBlock // index = height-1
 	History [][]byte
 
-	cur        *BlockStep
-	curH       int64
-	curPlans   []*TxPlan
-	cwCount    int
-	pending    []*pendingFork
-	forkSeq    int
-	lastBlkT   time.Time
+	cur      *BlockStep
+	curH     int64
+	curPlans []*TxPlan
+	cwCount  int
+	pending  []*pendingFork
+	forkSeq  int
+	lastBlkT time.Time
 
 	Log    []string
 	Viol   []*Violation
